@@ -34,7 +34,8 @@ import (
 
 type entryPoint struct {
 	name   string
-	header bool // a pure header decoder: must not allocate in proportion to the length
+	prefix []byte // valid frames that precede the hostile one (a message left open)
+	header bool   // a pure header decoder: must not allocate in proportion to the length
 	run    func(src *env.Src, dst *env.Dst, max int64) (consumedPayload bool, err error)
 }
 
@@ -58,22 +59,42 @@ func entryPoints() []entryPoint {
 		}
 	}
 	return []entryPoint{
-		{"ws.ReadHeader", true, func(src *env.Src, dst *env.Dst, max int64) (bool, error) { _, err := ws.ReadHeader(src); return false, err }},
-		{"ws.ReadFrame", false, func(src *env.Src, dst *env.Dst, max int64) (bool, error) { _, err := ws.ReadFrame(src); return true, err }},
-		{"Reader.NextFrame-only/server", true, func(src *env.Src, dst *env.Dst, max int64) (bool, error) {
+		{"ws.ReadHeader", nil, true, func(src *env.Src, dst *env.Dst, max int64) (bool, error) { _, err := ws.ReadHeader(src); return false, err }},
+		{"ws.ReadFrame", nil, false, func(src *env.Src, dst *env.Dst, max int64) (bool, error) { _, err := ws.ReadFrame(src); return true, err }},
+		{"Reader.NextFrame-only/server", nil, true, func(src *env.Src, dst *env.Dst, max int64) (bool, error) {
 			rd := &wsutil.Reader{Source: src, State: ws.StateServerSide, MaxFrameSize: max}
 			_, err := rd.NextFrame()
 			return false, err
 		}},
-		{"Reader.NextFrame-only/nocheck", true, func(src *env.Src, dst *env.Dst, max int64) (bool, error) {
+		{"Reader.NextFrame-only/nocheck", nil, true, func(src *env.Src, dst *env.Dst, max int64) (bool, error) {
 			rd := &wsutil.Reader{Source: src, SkipHeaderCheck: true, MaxFrameSize: max}
 			_, err := rd.NextFrame()
 			return false, err
 		}},
-		{"Reader/server", false, mkReader(ws.StateServerSide, false)},
-		{"Reader/client", false, mkReader(ws.StateClientSide, false)},
-		{"Reader/nocheck", false, mkReader(0, true)},
-		{"NextReader/server", false, func(src *env.Src, dst *env.Dst, max int64) (bool, error) {
+		{name: "Reader/server-inside-open-message", prefix: refmodel.Frame{H: refmodel.Hdr{Op: 1, Masked: true, Mask: [4]byte{1, 2, 3, 4}}, Payload: []byte("a")}.Wire(),
+			run: func(src *env.Src, dst *env.Dst, max int64) (bool, error) {
+				rd := &wsutil.Reader{Source: src, State: ws.StateServerSide, MaxFrameSize: max, CheckUTF8: true}
+				rd.OnIntermediate = wsutil.ControlFrameHandler(dst, ws.StateServerSide)
+				if _, err := rd.NextFrame(); err != nil {
+					return false, err
+				}
+				buf := make([]byte, 64)
+				for i := 0; i < 1000; i++ {
+					if _, err := rd.Read(buf); err != nil {
+						return true, err
+					}
+				}
+				return true, fmt.Errorf("harness: reader still going after 1000 reads")
+			}},
+		{name: "ReadData/client-inside-open-message", prefix: refmodel.Frame{H: refmodel.Hdr{Op: 2}, Payload: []byte("a")}.Wire(),
+			run: func(src *env.Src, dst *env.Dst, max int64) (bool, error) {
+				_, _, err := wsutil.ReadData(env.RW{Reader: src, Writer: dst}, ws.StateClientSide)
+				return true, err
+			}},
+		{"Reader/server", nil, false, mkReader(ws.StateServerSide, false)},
+		{"Reader/client", nil, false, mkReader(ws.StateClientSide, false)},
+		{"Reader/nocheck", nil, false, mkReader(0, true)},
+		{"NextReader/server", nil, false, func(src *env.Src, dst *env.Dst, max int64) (bool, error) {
 			_, r, err := wsutil.NextReader(src, ws.StateServerSide)
 			if err != nil {
 				return false, err
@@ -81,19 +102,19 @@ func entryPoints() []entryPoint {
 			_, err = io.Copy(io.Discard, r)
 			return true, err
 		}},
-		{"ReadMessage/server", false, func(src *env.Src, dst *env.Dst, max int64) (bool, error) {
+		{"ReadMessage/server", nil, false, func(src *env.Src, dst *env.Dst, max int64) (bool, error) {
 			_, err := wsutil.ReadMessage(src, ws.StateServerSide, nil)
 			return true, err
 		}},
-		{"ReadMessage/client", false, func(src *env.Src, dst *env.Dst, max int64) (bool, error) {
+		{"ReadMessage/client", nil, false, func(src *env.Src, dst *env.Dst, max int64) (bool, error) {
 			_, err := wsutil.ReadMessage(src, ws.StateClientSide, nil)
 			return true, err
 		}},
-		{"ReadData/server", false, func(src *env.Src, dst *env.Dst, max int64) (bool, error) {
+		{"ReadData/server", nil, false, func(src *env.Src, dst *env.Dst, max int64) (bool, error) {
 			_, _, err := wsutil.ReadData(env.RW{Reader: src, Writer: dst}, ws.StateServerSide)
 			return true, err
 		}},
-		{"ReadData/client", false, func(src *env.Src, dst *env.Dst, max int64) (bool, error) {
+		{"ReadData/client", nil, false, func(src *env.Src, dst *env.Dst, max int64) (bool, error) {
 			_, _, err := wsutil.ReadData(env.RW{Reader: src, Writer: dst}, ws.StateClientSide)
 			return true, err
 		}},
@@ -129,7 +150,11 @@ func frameCase(b0, b1 byte, ext uint64, follow int) []byte {
 }
 
 // judgeRun applies the C15 oracle to one run of an entry point.
-func judgeRun(ep entryPoint, data []byte, max int64) (sig, detail string) {
+func judgeRun(ep entryPoint, hostile []byte, max int64) (sig, detail string) {
+	data := hostile
+	if len(ep.prefix) > 0 {
+		data = append(append([]byte{}, ep.prefix...), hostile...)
+	}
 	src := env.NewSrc(data)
 	dst := env.NewDst()
 	var consumed bool
@@ -151,7 +176,8 @@ func judgeRun(ep entryPoint, data []byte, max int64) (sig, detail string) {
 		return "reads-without-progress:" + ep.name, fmt.Sprintf("%d Read calls for %d input bytes (err=%v)", src.Reads, len(data), err)
 	}
 	if max > 0 {
-		h, n, _, herr := refmodel.HdrDecode(data)
+		h, n, _, herr := refmodel.HdrDecode(hostile)
+		n += len(ep.prefix)
 		if herr == nil && int64(h.Len) > max && src.Off > n {
 			return "payload-read-despite-MaxFrameSize:" + ep.name, fmt.Sprintf("announced %d > limit %d but source consumed %d bytes, header is %d", h.Len, max, src.Off, n)
 		}
